@@ -64,7 +64,9 @@ def sel_C01(d, kind, f):
 
 
 def sel_C02(d, kind, f):
-    return kind in ('with', 'set') and not is_list(f) and f.get('count') is None
+    # "for every writable field": contiguous ones are C02's own domain; arrays and range lists are included as well
+    # (their element-wise statements are C03/C04; the write/read-back/frame statement is the same)
+    return kind in ('with', 'set')
 
 
 def sel_C03(d, kind, f):
